@@ -362,5 +362,6 @@ def main(tier):
     rep.attempt(check_mask_width, rep, mod)
     rep.attempt(check_flush_reaches_int, rep, mod, K)
     import c17
-    rep.attempt(c17.check_masked_nohist, rep, mod)      # after a full flush has_hist is IGZIP_NO_HIST again: the mask-only finder must not look the first position up
+    rep.attempt(c17.check_masked_nohist, rep, mod)
+    rep.attempt(c17.check_hist_after_space, rep)      # after a full flush has_hist is IGZIP_NO_HIST again: the mask-only finder must not look the first position up
     return rep.finish()
